@@ -117,14 +117,14 @@ func staleMat(m, n int, tag string) *vn.LocalMat {
 }
 
 // runHmm interprets method name of Hmm on the symbolic model; returns the single non-error path.
-func runHmm(p *packages.Package, d *declIndex, sh hmmShape, name string, params map[string]vn.Value) (*vn.Path, *vn.StructVal, string) {
+func runHmm(p *packages.Package, d *declIndex, sh hmmShape, name string, params []vn.Value) (*vn.Path, *vn.StructVal, string) {
 	fd := findMethodDecl(p, "Hmm", name)
 	if fd == nil {
 		return nil, nil, "method " + name + " not found"
 	}
 	obj := hmmObject(p, sh)
 	cfg := vn.Config{Pkg: p, TypeName: "Real64", Spec: distSpec, InlineOps: inlineOps, Decl: d.find, ParamNames: true, MaxDepth: 6, UnrollConst: true,
-		RecvStruct: obj, Opaque: hmmRecordHook(sh), ParamValues: params}
+		RecvStruct: obj, Opaque: hmmRecordHook(sh), ParamList: params}
 	paths, und := vn.Run(cfg, fd)
 	if und != nil {
 		return nil, nil, name + " left the interpreter's idiom set: " + und.Msg
@@ -190,7 +190,7 @@ func checkHmmEnumeration(c *core.Ctx) {
 		{
 			cons := "statistics/generic.(*Hmm).LogPdf"
 			r := &vn.Loc{Name: "r", Val: symf("stale_r"), Consistent: true}
-			pa, _, msg := runHmm(p, d, sh, "LogPdf", map[string]vn.Value{"r": r, "data": rec()})
+			pa, _, msg := runHmm(p, d, sh, "LogPdf", []vn.Value{r, rec()})
 			if pa == nil {
 				c.Unknown("C15.R4", cons, "interpreted "+tag, token.NoPos, msg)
 			} else {
@@ -207,8 +207,9 @@ func checkHmmEnumeration(c *core.Ctx) {
 		for _, variant := range []string{"forwardBackward", "float64ForwardBackward"} {
 			cons := "statistics/generic.(*Hmm)." + variant
 			alpha, beta := staleMat(sh.m, sh.n, "a"), staleMat(sh.m, sh.n, "b")
-			params := map[string]vn.Value{"data": rec(), "alpha": alpha, "beta": beta,
-				"t1": &vn.Loc{Name: "t1", Val: symf("stale_t1"), Consistent: true}, "t2": &vn.Loc{Name: "t2", Val: symf("stale_t2"), Consistent: true}}
+			// forwardBackward(data, alpha, beta, t1, t2) / float64ForwardBackward(data, alpha, beta)
+			params := []vn.Value{rec(), alpha, beta,
+				&vn.Loc{Name: "t1", Val: symf("stale_t1"), Consistent: true}, &vn.Loc{Name: "t2", Val: symf("stale_t2"), Consistent: true}}
 			pa, _, msg := runHmm(p, d, sh, variant, params)
 			fdv := findMethodDecl(p, "Hmm", variant)
 			if pa == nil {
@@ -238,7 +239,7 @@ func checkHmmEnumeration(c *core.Ctx) {
 		// ---- PosteriorMarginals
 		{
 			cons := "statistics/generic.(*Hmm).PosteriorMarginals"
-			pa, _, msg := runHmm(p, d, sh, "PosteriorMarginals", map[string]vn.Value{"data": rec()})
+			pa, _, msg := runHmm(p, d, sh, "PosteriorMarginals", []vn.Value{rec()})
 			fdv := findMethodDecl(p, "Hmm", "PosteriorMarginals")
 			if pa == nil {
 				c.Unknown("C15.R4", cons, "interpreted "+tag, token.NoPos, msg)
@@ -287,7 +288,7 @@ func checkHmmEnumeration(c *core.Ctx) {
 				states.Elems = append(states.Elems, sl)
 			}
 			r := &vn.Loc{Name: "r", Val: symf("stale_r"), Consistent: true}
-			pa, _, msg := runHmm(p, d, sh, "Posterior", map[string]vn.Value{"r": r, "data": rec(), "states": states})
+			pa, _, msg := runHmm(p, d, sh, "Posterior", []vn.Value{r, rec(), states})
 			fdv := findMethodDecl(p, "Hmm", "Posterior")
 			if pa == nil {
 				c.Unknown("C15.R4", cons, "interpreted "+tag, token.NoPos, msg)
@@ -372,12 +373,12 @@ func checkMixtureEnumeration(c *core.Ctx, p *packages.Package, d *declIndex) {
 			continue
 		}
 		r := &vn.Loc{Name: "r", Val: symf("stale_r"), Consistent: true}
-		params := map[string]vn.Value{"r": r, "data": &vn.OpaqueVal{What: "mixrecord"}}
+		params := []vn.Value{r, &vn.OpaqueVal{What: "mixrecord"}}
 		if cs.st != nil {
-			params["states"] = cs.st
+			params = append(params, cs.st)
 		}
 		cfg := vn.Config{Pkg: p, TypeName: "Real64", Spec: distSpec, InlineOps: inlineOps, Decl: d.find, ParamNames: true, MaxDepth: 6, UnrollConst: true,
-			RecvStruct: mk(), Opaque: hook, ParamValues: params}
+			RecvStruct: mk(), Opaque: hook, ParamList: params}
 		paths, und := vn.Run(cfg, fd)
 		if und != nil {
 			c.Unknown("C15.R4", cons, "interpreted", und.Pos, cs.name+" left the interpreter's idiom set: "+und.Msg)
@@ -458,7 +459,7 @@ func checkViterbi(c *core.Ctx) {
 		rec(0)
 		obj := hmmObject(p, sh)
 		cfg := vn.Config{Pkg: p, TypeName: "Real64", Spec: distSpec, InlineOps: inlineOps, Decl: d.find, ParamNames: true, MaxDepth: 6, UnrollConst: true, FiniteSyms: true,
-			RecvStruct: obj, RecvFresh: true, Opaque: hmmRecordHook(sh), ParamValues: map[string]vn.Value{"data": &vn.OpaqueVal{What: "record"}}}
+			RecvStruct: obj, RecvFresh: true, Opaque: hmmRecordHook(sh), ParamList: []vn.Value{&vn.OpaqueVal{What: "record"}}}
 		paths, und := vn.Run(cfg, fd)
 		if und != nil {
 			c.Unknown("C15.R5", cons, "interpreted "+tag, und.Pos, "Viterbi left the interpreter's idiom set: "+und.Msg)
